@@ -139,7 +139,7 @@ def check_derived(drep, mode, dgens, vals, dim):
     need(rc.dict_check(drep, dgens, dm, "derived.generators"))
     if drep.dim != dim:
         raise Bad("derived.dim", "dim %r, specified %r" % (drep.dim, dim))
-    need(rc.words_check(drep, dm, vals, "derived.image"))
+    need(rc.words_check(drep, dm, vals, "derived.image", norms=rc.norms_of(dgens)))
     return len(vals)
 
 
@@ -148,7 +148,8 @@ def part_base(row, mode, cx=False):
     rep = rc.build(mode, gens)
     need(rc.dict_check(rep, gens, mode))
     vals = table_of(row["vals"], cx)
-    need(rc.words_check(rep, mode, vals, "image"))
+    norms = rc.norms_of(gens)
+    need(rc.words_check(rep, mode, vals, "image", norms=norms))
     # all words at once
     ws = [mode.word(w) for w, _ in vals]
     try:
@@ -158,7 +159,7 @@ def part_base(row, mode, cx=False):
     if arr.shape != (len(ws), row["n"], row["n"]):
         raise Bad("elements.shape", "%r for %d words of dimension %d" % (arr.shape, len(ws), row["n"]))
     for i, (w, want) in enumerate(vals):
-        if not rc.close(arr[i], want):
+        if not rc.close(arr[i], want, slack=rc.word_slack(w, norms)):
             raise Bad("elements[i]", "elements(...)[%d] (word %r) = %r, specified %r" % (i, ws[i], rc.show(arr[i]), rc.show(want)))
     n = len(vals) * 4
     if not cx and mode.naming == "single" and mode.parse is None and "reduce" in row:
@@ -374,17 +375,16 @@ def part_fox(row, mode):
             blk = coc[j * dim:(j + 1) * dim, i * dim:(i + 1) * dim]
             if not rc.close(blk, blocks[g]):
                 raise Bad("cocycle.block", "relator %r, generator %r: %r, specified %r" % (r, g, rc.show(blk), rc.show(blocks[g])))
-    signs = set()
+    signs = set()      # the sign convention of the coboundary map is left free, but it is one convention
     for i, g in enumerate(lowers):
         blk = cob[i * dim:(i + 1) * dim, :]
         ref = I - gens[g]
-        if rc.close(blk, ref):
-            signs.add(1)
-        elif rc.close(blk, -ref):
-            signs.add(-1)
-        else:
+        plus, minus = rc.close(blk, ref), rc.close(blk, -ref)
+        if not (plus or minus):
             raise Bad("coboundary.block", "block %r = %r, specified +-(I - rep[%s]) = %r" % (g, rc.show(blk), g, rc.show(ref)))
-    if len(signs) > 1 and any(not rc.close(gens[g], I) for g in lowers if rc.close(I - gens[g], -(I - gens[g]))):
+        if plus != minus:
+            signs.add(1 if plus else -1)
+    if len(signs) > 1:
         raise Bad("coboundary.sign", "blocks of the coboundary matrix use different signs")
     prod = coc @ cob
     if not rc.close(prod, np.zeros((dim * len(rels), dim)), scale=10.0 * max(1.0, float(np.abs(coc).max()) if coc.size else 1.0)):
@@ -440,11 +440,10 @@ def run_row(args):
     return row["id"], row_label(row), out
 
 
-def tables(run, module, cfg, name, quick, workers, tag=""):
-    r = run.tlc(module, cfg, name=name, workers=workers, emit_prefix="\x00none")
+def tables(run, r, name, quick, tag=""):
     rows = parse_rows(r.stdout)
     if not rows:
-        raise core.MachineryFailure("no table printed by %s" % module)
+        raise core.MachineryFailure("no table printed by %s" % name)
     n = min(8, core.NCPU, len(rows))
     with mp.get_context("fork").Pool(n) as pool:
         outs = pool.map(run_row, [(row, quick) for row in rows], chunksize=1)
@@ -576,12 +575,13 @@ def hist_chunk(args):
     return n, viol, sample
 
 
-def histories(run, quick):
+def hist_cfg(depth):
+    return core.cfg(constants=dict(MaxSteps=depth, WordLen=2), invariants=["Coherent", "LastWins", "EmitObs"],
+                    view="View", action_constraints=["Emit"])
+
+
+def histories(run, r, quick, depth):
     global HLTS, HOBS
-    depth = 3 if quick else 4
-    c = core.cfg(constants=dict(MaxSteps=depth, WordLen=2), invariants=["Coherent", "LastWins", "EmitObs"],
-                 view="View", action_constraints=["Emit"])
-    r = run.tlc("rep/RepHist.tla", c, name="RepHist", workers=min(8, core.NCPU))
     HOBS = {}
     for row in parse_rows(r.stdout, '"OBS '):
         HOBS[hkey(row["key"])] = row
@@ -631,11 +631,22 @@ def run(run, replay=None):
         "a word of a representation with multi-character names is a list of names or a '*'-joined string",
         "wrapped (projective / hyperbolic) images compared up to one non-zero scalar",
     ]
-    c = core.cfg(constants=dict(Cases=core.Raw("BaseCases"), CCases=core.Raw("BaseCCases")), invariants=["Theorems", "EmitObs"])
-    c = c.replace("Cases = BaseCases", "Cases <- BaseCases").replace("CCases = BaseCCases", "CCases <- BaseCCases")
-    tables(run, "rep/Rep.tla", c, "Rep", quick, workers=min(8, core.NCPU))
-    histories(run, quick)
-    from .. import rep_random
-    rep_random.run(run, quick, tables)
-    from .. import rep_trace
-    rep_trace.run(run, quick)
+    from concurrent.futures import ThreadPoolExecutor
+    from .. import rep_random, rep_trace
+    base = "BaseCases" if quick else "DeepCases"
+    c = core.cfg(constants=dict(Cases=core.Raw(base), CCases=core.Raw("BaseCCases")), invariants=["Theorems", "EmitObs"])
+    c = c.replace("Cases = " + base, "Cases <- " + base).replace("CCases = BaseCCases", "CCases <- BaseCCases")
+    depth = 3 if quick else 4
+    rand_path, rand_cfg = rep_random.prepare(run, quick)
+    recorded = rep_trace.record(run, quick)
+    # the four TLC runs are independent: run them side by side (12 worker threads in total)
+    with ThreadPoolExecutor(4) as ex:
+        f_rep = ex.submit(run.tlc, "rep/Rep.tla", c, name="Rep", workers=5, emit_prefix="\x00none")
+        f_hist = ex.submit(run.tlc, "rep/RepHist.tla", hist_cfg(depth), name="RepHist", workers=2)
+        f_rand = ex.submit(run.tlc, rand_path, rand_cfg, name="RepRand", workers=3, emit_prefix="\x00none")
+        f_trace = ex.submit(rep_trace.validate, run, recorded[0], "RepTrace") if recorded[0] else None
+        results = [f.result() if f else None for f in (f_rep, f_hist, f_rand, f_trace)]
+    tables(run, results[0], "Rep", quick)
+    histories(run, results[1], quick, depth)
+    tables(run, results[2], "RepRand", quick, tag="rand:")
+    rep_trace.finish(run, recorded, results[3])
